@@ -23,7 +23,7 @@ RULE = ('seeded frames: 0-6 locals holding generated object graphs (scalars, nes
 ASSUMPTIONS = ['values stay inside the default collection limits (limits are C05), friendly types only (hostile '
                'types are C06)', 'expressions are side-effect free, so evaluating them twice is sound',
                'order of variables within a frame is not part of the property']
-REQUIRE = {'snapshots_compared': 150, 'entries_compared': 1500, 'watches_compared': 50, 'frames_compared': 300,
+REQUIRE = {'paused_frame_closure': 20, 'paused_frame_generator': 20, 'paused_frame_coroutine': 20, 'paused_frame_nested_class': 20, 'snapshots_compared': 150, 'entries_compared': 1500, 'watches_compared': 50, 'frames_compared': 300,
            'time_budget_cases': 10}
 
 
@@ -60,6 +60,7 @@ def case_frame(seed, out, spec, wd):
     depth = r.pick([1, 1, 2, 3, 5, 8, 12])
     method = r.pick([False, False, False, True, True, 'falsy_len', 'falsy_bool'])
     frame_type = r.pick([None, 'single_frame', 'all_frame', 'no_frame'])
+    kind = None
     wl = []
     if nloc >= 1 and r.chance(0.7):
         for _ in range(r.randrange(1, 5)):
@@ -85,8 +86,16 @@ def case_frame(seed, out, spec, wd):
         # variables of the later frames, never the stack itself
         values[0] = _Slow()
         depth = max(depth, 3)
-    case = FrameCase(wd, names, values, depth=depth, method=method, caller_locals=r.chance(0.5), custom=custom,
-                     plugins=[_python_plugin()])
+    caller_locals = r.chance(0.5)
+    if not method and 'self' not in names:
+        # the paused frame may also be a closure (free variables are locals too), a generator, a coroutine or a
+        # function of a class defined inside a function
+        kind = r.pick([None, None, 'closure', 'generator', 'coroutine', 'nested_class'])
+    if kind == 'closure' and r.chance(0.7):
+        # the free variables of the paused function are visible to expressions as well
+        wl += ['captured_note', 'shared_cell[1] is captured_note'][:r.randrange(1, 3)]
+    case = FrameCase(wd, names, values, depth=depth, method=method, caller_locals=caller_locals, custom=custom,
+                     plugins=[_python_plugin()], kind=kind)
     if slow and names:
         case.rig.freeze = False
     case.mod.MODULE_CONST = 'host-global-%d' % r.randrange(100)
@@ -132,7 +141,7 @@ def case_frame(seed, out, spec, wd):
         out.inconc('C02 host thread did not finish (watchdog) seed=%s' % seed)
         return
     witness = {'locals': {n: short(skeleton(v), 120) for n, v in zip(names, values)}, 'depth': depth,
-               'method': method, 'frame_type': frame_type, 'watches': wl, 'prefix_mode': mode}
+               'method': method, 'frame_kind': kind, 'frame_type': frame_type, 'watches': wl, 'prefix_mode': mode}
     if case.hits == 0:
         out.inconc('C02 marked line never reached seed=%s' % seed)
         return
@@ -146,6 +155,8 @@ def case_frame(seed, out, spec, wd):
     out.count('entries_compared', stats['entries'])
     out.count('watches_compared', stats['watches'])
     out.count('frames_compared', stats['frames'])
+    if kind and stats['snaps']:
+        out.count('paused_frame_' + kind)
     if stats.get('slow'):
         out.count('time_budget_cases')
     for k in gg.kinds:
